@@ -251,6 +251,21 @@ def mpo_vcs(eng, acc, g, words, L, ids, qd, opmap=None):
         eng.mark('nid_map_checked')
     if mpo.nsites != L:
         fails.append('MPO length differs')
+    # the default call (no node map requested) must build the very same tensors and quantum numbers
+    try:
+        mpo0 = MPO.from_opgraph(qd, g, opmap)
+        same = len(mpo0.A) == len(mpo.A) and all(a.shape == b.shape for a, b in zip(mpo0.A, mpo.A))
+        if same:
+            diffs = [S(x) - S(y) for a, b in zip(mpo0.A, mpo.A) for x, y in zip(a.reshape(-1), b.reshape(-1))
+                     if not (is_structural_zero(x) and is_structural_zero(y))]
+            same = prover.prove(eng, diffs, rounds=0, acc=acc, label='vc_mpo_default_call') == 'proved'
+            qatoms = [S(x) == S(y) for q0, q1 in zip(mpo0.qD, mpo.qD) for x, y in zip(q0, q1)]
+            same = same and [len(q) for q in mpo0.qD] == [len(q) for q in mpo.qD] and prover.prove_int(eng, qatoms, acc) == 'proved'
+        if not same:
+            fails.append('from_opgraph without compute_nid_map builds a different MPO than with it')
+    except Exception as e:
+        reraise_internal(e)
+        fails.append(f'from_opgraph (default arguments) raised {type(e).__name__}: {e}')
     return fails
 
 
